@@ -245,6 +245,19 @@ pub fn run_c05(thorough: bool, seed: u64, shards: usize) -> (Report, String) {
         }
         rep
     });
+    // threshold families (wide parents whose late children are demoted together, deep chains ...)
+    let th = hist::threshold_cases_light();
+    let sub = crate::report::sharded(shards, |shard| {
+        let mut r = Report::new();
+        for (i, c) in th.iter().enumerate() {
+            if i % shards == shard {
+                check_c05(c, 12, if i % 4 == 0 { threads } else { 0 }, &mut r);
+                r.count("threshold_cases");
+            }
+        }
+        r
+    });
+    rep.merge(sub);
     // processes: the first `np_cases` cases hashed by P fresh processes
     let procs = if thorough { 8 } else { 3 };
     let np_cases: u64 = if thorough { 200_000 } else { 20_000 };
@@ -405,6 +418,7 @@ pub fn run_c11(thorough: bool, seed: u64, shards: usize) -> (Report, String) {
     let n: u64 = if thorough { 6_000_000 } else { 240_000 };
     let docs_a = hist::tiny_docs(3, true, false);
     let na = docs_a.len();
+    let th11 = hist::threshold_cases_light();
     let rep = crate::report::sharded(shards, |shard| {
         let mut rep = Report::new();
         let per = n / shards as u64;
@@ -416,6 +430,12 @@ pub fn run_c11(thorough: bool, seed: u64, shards: usize) -> (Report, String) {
                 hist::random_case(seed, "C11", idx, Mix::Schema)
             };
             check_c11(&case, &mut rep);
+        }
+        for (i, c) in th11.iter().enumerate() {
+            if i % shards == shard {
+                check_c11(c, &mut rep);
+                rep.count("threshold_cases");
+            }
         }
         // exhaustive tiny documents and sampled pairs: `<x/>` vs `<x></x>` under every small history
         let mut r = Rng::derive(seed, "C11-tiny", shard as u64);
@@ -723,10 +743,17 @@ pub fn run_c06(thorough: bool, seed: u64, shards: usize) -> (Report, String) {
     let n: u64 = if thorough { 4_000_000 } else { 160_000 };
     let docs_a = hist::tiny_docs(3, true, false);
     let na = docs_a.len();
+    let th06 = hist::threshold_cases_light();
     let rep = crate::report::sharded(shards, |shard| {
         let mut rep = Report::new();
         let per = n / shards as u64;
         let mut r = Rng::derive(seed, "C06-tiny", shard as u64);
+        for (i, c) in th06.iter().enumerate() {
+            if i % shards == shard {
+                check_c06(c, &mut rep);
+                rep.count("threshold_cases");
+            }
+        }
         for k in 0..per {
             let idx = shard as u64 * per + k;
             let case = match k % 4 {
